@@ -74,6 +74,10 @@ func exprName(e ast.Expr) string {
 		return x.Name
 	case *ast.SelectorExpr:
 		return exprName(x.X) + "." + x.Sel.Name
+	case *ast.IndexExpr: // generic instantiation f[T](...)
+		return exprName(x.X)
+	case *ast.IndexListExpr:
+		return exprName(x.X)
 	}
 	return ""
 }
